@@ -192,6 +192,10 @@ func (e *Eng) actRedeem() {
 		form.Set("audience", "https://other.example")
 		e.label("redeem-smuggle")
 	}
+	if v := g.Extra["verifier"]; v != "" {
+		// the authorization was pushed with a PKCE challenge: the holder presents the matching verifier
+		form.Set("code_verifier", v)
+	}
 	auth := e.auth(presenter)
 	if badAuth {
 		auth.BasicPass = "wrong-secret"
@@ -262,6 +266,9 @@ func (e *Eng) actRedeem() {
 				e.viol("C02/rightful-holder-refused-after-failed-attempts", "%v: %d refused attempts before, now the rightful client with the right redirect_uri before expiry is refused: %v", code, code.Fails, tr.Err)
 			}
 			e.viol("X/rightful-redemption-refused", "%v: rightful redemption refused: %v %s", code, tr.Err, tr.Err.Hint)
+			if g.Extra["par"] == "1" {
+				e.viol("C17/pushed-value-overridden", "%v came from a pushed authorization request (PKCE verifier pushed: %v); its rightful redemption with the pushed values is refused: %v %s", code, g.Extra["verifier"] != "", tr.Err, tr.Err.Hint)
+			}
 			e.label("redeem-unexpected-refusal")
 			e.invariant("")
 			return
